@@ -485,3 +485,117 @@ func localExpireSweep(s *smx.SM) error { return s.Store.VerifLocalExpireOnce() }
 const haveSweep = true
 
 var _ = time.Now
+
+// ------------------------------------------------------------------ observed write sets
+
+// keyClass decodes an engine key into its class and owner: 0 kv, 1 hsize, 2 hfield, 3 table counter,
+// 4 expire-time index; owner = the primary key "table:key" (the table for a counter). 99 = another class.
+func keyClass(k []byte) (int, []byte) {
+	if len(k) == 0 {
+		return 99, nil
+	}
+	switch k[0] {
+	case rockredis.KVType:
+		if pk, err := rockredis.VerifDecodeKVKey(k); err == nil {
+			return 0, pk
+		}
+	case rockredis.HSizeType:
+		if pk, err := rockredis.VerifHDecodeSizeKey(k); err == nil {
+			return 1, pk
+		}
+	case rockredis.HashType:
+		if _, raw, _, err := rockredis.VerifConvertCollDBKeyToRawKey(k); err == nil {
+			return 2, raw
+		}
+		// local-deletion policy: the collection key carries no version
+		if t, key, _, err := rockredis.VerifHDecodeHashKey(k); err == nil {
+			return 2, append(append(append([]byte{}, t...), ':'), key...)
+		}
+	case rockredis.TableMetaType:
+		if t, err := rockredis.VerifDecodeTableMetaKey(k); err == nil {
+			return 3, t
+		}
+	case rockredis.ExpTimeType:
+		if len(k) >= 10 {
+			return 4, k[10:]
+		}
+	}
+	return 99, nil
+}
+
+func rawMap(s *smx.SM) map[string]string {
+	m := map[string]string{}
+	for _, ln := range s.RawDump() {
+		if i := strings.IndexByte(ln, '='); i >= 0 {
+			m[ln[:i]] = ln[i+1:]
+		}
+	}
+	return m
+}
+
+// writeSets applies the log one request per call and reports, for every batchable-name command, the
+// classes of the engine keys it changed: c for a key owned by the command's own primary key (its table
+// for the counter), 100+c for a key owned by something else.
+func (x *runner) writeSets(l *Log, engine string) ([]string, error) {
+	s, err := smx.Open(engine, l.Policy)
+	if err != nil {
+		return nil, err
+	}
+	defer s.Close()
+	n := len(l.Reqs)
+	out := &runOut{replies: make([]string, n), kinds: make([]string, n), own: make([]string, n)}
+	next := uint64(1)
+	base := x.baseOf(0)
+	var res []string
+	for i, r := range l.Reqs {
+		var before map[string]string
+		name := ""
+		if r.Kind == 'R' && len(r.Args) >= 2 {
+			name = strings.ToLower(string(r.Args[0]))
+		}
+		watch := rockredis.IsBatchableWrite(name) && !(name == "del" && len(r.Args) > 2)
+		if watch {
+			before = rawMap(s)
+		}
+		x.applyPart(s, l, i, i+1, [][]Call{{{N: 1}}}, false, false, base, &next, out)
+		if !watch {
+			continue
+		}
+		after := rawMap(s)
+		pk := r.Args[1]
+		table := pk
+		if j := strings.IndexByte(string(pk), ':'); j >= 0 {
+			table = pk[:j]
+		}
+		seen := map[int]bool{}
+		note := func(k string) {
+			c, owner := keyClass(hx.UnH(k))
+			own := string(owner) == string(pk)
+			if c == 3 {
+				own = string(owner) == string(table)
+			}
+			if c == 99 || !own {
+				c += 100
+			}
+			seen[c] = true
+		}
+		for k, v := range after {
+			if bv, ok := before[k]; !ok || bv != v {
+				note(k)
+			}
+		}
+		for k := range before {
+			if _, ok := after[k]; !ok {
+				note(k)
+			}
+		}
+		var cs []string
+		for c := 0; c < 200; c++ {
+			if seen[c] {
+				cs = append(cs, strconv.Itoa(c))
+			}
+		}
+		res = append(res, fmt.Sprintf("%s.w%d\tWS\t%s\t%s", l.ID, i, hx.H([]byte(name)), strings.Join(cs, ",")))
+	}
+	return res, nil
+}
